@@ -132,6 +132,53 @@ func functionsFor(prog *Program, cs *Contracts, prop string) []string {
 			}
 		}
 	}
+	// preconditions tagged with the property are discharged at call sites:
+	// every contracted caller of such a function belongs to the check
+	needs := map[string]bool{}
+	for name, fc := range cs.Funcs {
+		for _, c := range fc.Requires {
+			if has(c.Props) {
+				needs[name] = true
+			}
+		}
+	}
+	if len(needs) > 0 {
+		var scan func(fn *ssa.Function, owner string)
+		scan = func(fn *ssa.Function, owner string) {
+			for _, b := range fn.Blocks {
+				for _, in := range b.Instrs {
+					var cc *ssa.CallCommon
+					switch x := in.(type) {
+					case *ssa.Call:
+						cc = &x.Call
+					case *ssa.Defer:
+						cc = &x.Call
+					case *ssa.Go:
+						cc = &x.Call
+					}
+					if cc == nil {
+						continue
+					}
+					if callee := cc.StaticCallee(); callee != nil && needs[FuncName(callee)] {
+						set[owner] = true
+					}
+				}
+			}
+			for _, an := range fn.AnonFuncs {
+				if _, own := cs.Funcs[FuncName(an)]; !own {
+					scan(an, owner)
+				}
+			}
+		}
+		for name, fc := range cs.Funcs {
+			if strings.HasPrefix(name, "ff:") || strings.HasPrefix(name, "if:") || fc.Trusted || inlineOnly(fc) {
+				continue
+			}
+			if fn := prog.Funcs[name]; fn != nil {
+				scan(fn, name)
+			}
+		}
+	}
 	var out []string
 	for n := range set {
 		out = append(out, n)
